@@ -104,6 +104,9 @@ impl MT210 {
             }
         }
 
+        // Reject content left after the last field of the message
+        verify_parser_complete(&parser)?;
+
         Ok(MT210 {
             transaction_reference,
             account_identification,
